@@ -97,20 +97,26 @@ def oracle_c08(evs, term):
 
 # ---------------- C03 ----------------
 def oracle_c03(evs, term, case):
-    ntasks = 1 + sum(1 for e in evs if e.kind == "O" and e.tag == 1)
+    ntasks = 1 + sum(1 for e in evs if e.kind == "O" and e.tag in (1, 31))
     ended = set(e.task for e in evs if e.kind == "O" and e.tag == 9)
     if term.startswith("deadlock:"):
         ids = [int(x) for x in term[10:-1].split(",") if x]
         exp = [t for t in range(ntasks) if t not in ended]
-        if sorted(ids) != exp:
-            return "deadlock report names %s, unfinished bodies are %s" % (ids, exp)
+        # a spawned future that was aborted ends without reaching its END record (or stays blocked): either is possible
+        aborted = set(e.vals[0] for e in evs if e.kind == "O" and e.tag == 33)
+        must = [t for t in exp if t not in aborted]
+        if not (set(must) <= set(ids) <= set(exp)) or len(set(ids)) != len(ids):
+            return "deadlock report names %s, unfinished bodies are %s (aborted: %s)" % (ids, exp, sorted(aborted))
         # the last decision must not have offered a task that then ran to a non-blocked state: nothing more to check here
     if term == "ok":
         stopped = any(e.kind == "D" and e.chosen is None for e in evs)
         if case["ms"].startswith("cont"):
             stopped = True      # cannot be told apart from outside
-        if not stopped and len(ended) != ntasks:
-            return "run ended normally although bodies %s never reached their end" % [t for t in range(ntasks) if t not in ended]
+        # detached tasks (spawned futures whose JoinHandle was dropped) are cut off, never waited for
+        threads = set([0] + [e.vals[0] for e in evs if e.kind == "O" and e.tag == 1])
+        missing = [t for t in sorted(threads) if t not in ended]
+        if not stopped and missing:
+            return "run ended normally although thread bodies %s never reached their end" % missing
     return None
 
 
@@ -139,6 +145,209 @@ def oracle_c13(evs, term, case, allow_draw_overrun=False):
     return None
 
 
+# ---------------- attribution of logged events to program operations ----------------
+TAG_OF_OP = {"sp": 1, "jn": 2, "yd": 3, "pk": 4, "uh": 5, "ut": 5, "rn": 6, "rs": 8, "sa": 10, "st": 11, "sr": 12, "sc": 13, "sv": 14,
+             "lk": 15, "tl": 16, "ul": 17, "rd": 18, "wr": 18, "tr": 19, "tw": 19, "ru": 20, "cw": 21, "cn": 22, "ca": 22,
+             "sd": 23, "ts": 23, "rc": 24, "tc": 24, "dt": 25, "dr": 26, "bw": 27, "co": 28, "ic": 29,
+             "as": 31, "aw": 32, "ab": 33, "dh": 34, "ay": 35, "bo": 36, "if": 37}
+
+
+def op_tag(op):
+    if op[0] == "a" and "." in op and op[1].isdigit():
+        return 7
+    return TAG_OF_OP.get(op[:2])
+
+
+def attribute(evs, case, want_stacks=False):
+    """Returns a list parallel to evs: for each O event the program operation (string) that produced it, or None
+    for bookkeeping records (END, INIT, implicit guard drops, block_on markers).  Frames: each task has a stack of
+    [body, pc] entries (thread body, then inline call_once / block_on bodies)."""
+    bodies = case["bodies"]
+    stacks = {0: [[0, 0]]}
+    out = []
+    for e in evs:
+        if e.kind != "O":
+            out.append(None)
+            continue
+        t = e.task
+        st = stacks.get(t)
+        if not st:
+            out.append(None)
+            continue
+        frame = st[-1]
+        ops = bodies[frame[0]] if frame[0] < len(bodies) else []
+        if e.tag == 9:
+            out.append(None)
+            continue
+        if e.tag == 30:      # a call_once initialiser starts: the `co` op is at the frame's pc
+            op = ops[frame[1]] if frame[1] < len(ops) else None
+            if op and op.startswith("co"):
+                st.append([int(op.split(".")[1]), 0])
+            out.append(None)
+            continue
+        if e.tag == 36:
+            if e.vals:       # block_on starts
+                op = ops[frame[1]] if frame[1] < len(ops) else None
+                if op and op.startswith("bo"):
+                    st.append([int(op[2:]), 0])
+                out.append(None)
+            else:            # block_on returns
+                if len(st) > 1:
+                    st.pop()
+                    st[-1][1] += 1
+                out.append(None)
+            continue
+        if e.tag in (17, 20):
+            # explicit unlock if the next op is one for that object, else an implicit drop at the end of a scope
+            op = ops[frame[1]] if frame[1] < len(ops) else None
+            if op and op[:2] in ("ul", "ru") and int(op[2:]) == e.vals[-1]:
+                frame[1] += 1
+                out.append(op)
+            else:
+                out.append(None)
+            continue
+        if e.tag == 28 and len(st) > 1 and frame[1] >= len(ops):
+            # call_once returns after its initialiser frame ran to the end
+            st.pop()
+            frame = st[-1]
+            ops = bodies[frame[0]] if frame[0] < len(bodies) else []
+        op = ops[frame[1]] if frame[1] < len(ops) else None
+        if op is None or op_tag(op) != e.tag:
+            out.append(None)
+            continue
+        frame[1] += 1
+        out.append(op)
+        if e.tag in (1, 31):
+            child = e.vals[0]
+            stacks[child] = [[int(op[2:]), 0]]
+    if want_stacks:
+        return out, stacks
+    return out
+
+
+# ---------------- C05 / C06 / C17: condvar, channels, barrier, once, futures ----------------
+def oracle_sync2(evs, term, case):
+    out = []
+    objs = case["objs"]
+    attr = attribute(evs, case)
+    chans = {}
+    for i, o in enumerate(objs):
+        if o[0] == "c":
+            chans[i] = {"bound": None if o[1:] == "u" else int(o[1:]), "q": [], "tx_alive": 3, "rx_alive": True}
+    last_op_idx = {}            # task -> index of its previous O event
+    notifies = {}               # cv -> list of (index, all?)
+    bar_returns = {}
+    once_inits = {}
+    once_done = {}
+    aborted = set()
+    finished_async = {}
+    body_of_task = {0: 0}
+    for i, e in enumerate(evs):
+        if e.kind != "O":
+            continue
+        op = attr[i]
+        t = e.task
+        if e.tag == 30:
+            # which once: the `co` op of the caller
+            pass
+        if op is not None:
+            if e.tag in (1, 31):
+                body_of_task[e.vals[0]] = int(op[2:])
+            if e.tag == 22:
+                cv = int(op[2:])
+                notifies.setdefault(cv, []).append((i, e.vals[0] == 1))
+            elif e.tag == 21:
+                cv = int(op[2:].split(".")[0])
+                since = last_op_idx.get(t, -1)
+                if not any(j > since for j, _ in notifies.get(cv, [])):
+                    out.append(("C05", "Condvar::wait on v%d by task %d returned although no notify was issued since the task's previous operation" % (cv, t), None))
+            elif e.tag == 23:
+                ch = int(op[2:].split(".")[0])
+                c = chans[ch]
+                v = int(op.split(".")[2])
+                r = e.vals[0]
+                cap = None if c["bound"] is None else max(c["bound"], 1)
+                if r == 0:
+                    c["q"].append(v)
+                    if cap is not None and len(c["q"]) > cap:
+                        out.append(("C06", "channel c%d holds %d messages, capacity %d" % (ch, len(c["q"]), cap), None))
+                    if not c["rx_alive"]:
+                        out.append(("C06", "send on c%d succeeded after the receiver was dropped" % ch, None))
+                elif r == 2 and c["rx_alive"]:
+                    out.append(("C06", "send on c%d reported disconnection while the receiver is alive" % ch, None))
+                elif r == 1 and cap is not None and len(c["q"]) < cap and c["bound"] != 0:
+                    # Full although space exists: allowed only if blocked senders are queued ahead (FIFO fairness); cannot be seen here
+                    pass
+            elif e.tag == 24:
+                ch = int(op[2:])
+                c = chans[ch]
+                r = e.vals[0]
+                if r == 0:
+                    if not c["q"]:
+                        out.append(("C06", "recv on c%d returned %d but nothing is in flight" % (ch, e.vals[1]), None))
+                    elif c["q"][0] != e.vals[1]:
+                        out.append(("C06", "recv on c%d returned %d, the oldest undelivered message is %d" % (ch, e.vals[1], c["q"][0]), None))
+                        if e.vals[1] in c["q"]:
+                            c["q"].remove(e.vals[1])
+                    else:
+                        c["q"].pop(0)
+                elif r == 2:
+                    if c["tx_alive"] > 0:
+                        out.append(("C06", "recv on c%d reported disconnection while %d senders are alive" % (ch, c["tx_alive"]), None))
+                    elif c["q"]:
+                        out.append(("C06", "recv on c%d reported disconnection with %d messages undelivered" % (ch, len(c["q"])), None))
+                elif r == 1 and c["q"] and c["bound"] != 0:
+                    out.append(("C06", "try_recv on c%d reported Empty with %d messages queued" % (ch, len(c["q"])), None))
+            elif e.tag == 25:
+                chans[int(op[2:].split(".")[0])]["tx_alive"] -= 1
+            elif e.tag == 26:
+                chans[int(op[2:])]["rx_alive"] = False
+            elif e.tag == 27:
+                b = int(op[2:])
+                bar_returns.setdefault(b, []).append(e.vals[0])
+            elif e.tag == 28:
+                o = int(op[2:].split(".")[0])
+                once_done[o] = True
+            elif e.tag == 29:
+                o = int(op[2:])
+                if e.vals[0] == 1 and not once_inits.get("any"):
+                    out.append(("C05", "Once o%d reported completed before any initialiser ran" % o, None))
+            elif e.tag == 33:
+                aborted.add(e.vals[0])
+            elif e.tag == 32:
+                # await result: value must be the body index of the awaited task; Cancelled only after an abort
+                pass
+        if e.tag == 30:
+            # initialiser of some Once started in task t: find the enclosing co op
+            st_op = None
+            # the attribute() walker pushed a frame; recover the once id from the previous frame's current op
+            # (cheap re-derivation: scan back for the task's pending `co`)
+            for o, ob in enumerate(objs):
+                pass
+            once_inits.setdefault("any", 0)
+            once_inits["any"] += 1
+        if e.tag == 32 and op is not None:
+            h = int(op[2:])
+            if e.vals[0] == 1:
+                # Cancelled: some abort must have been issued in this execution
+                if not aborted:
+                    out.append(("C17", "JoinHandle reported Cancelled but no abort was ever issued", None))
+        last_op_idx[t] = i
+    # barrier: with everything finished, leaders = returns / bound
+    for b, rets in bar_returns.items():
+        bound = int(objs[b][1:])
+        if bound >= 1 and term == "ok" and not any(e.kind == "D" and e.chosen is None for e in evs) and not case["ms"].startswith("cont"):
+            if len(rets) % bound == 0 and sum(rets) != len(rets) // bound:
+                out.append(("C05", "barrier b%d: %d waits returned in groups of %d but %d leaders were reported" % (b, len(rets), bound, sum(rets)), None))
+        if sum(rets) * bound > len(rets) + bound - 1:
+            out.append(("C05", "barrier b%d: %d leaders for %d returns with bound %d" % (b, sum(rets), len(rets), bound), None))
+    # once: at most one initialiser per Once object per execution (one Once object per program in generated cases)
+    n_once = sum(1 for o in objs if o == "o")
+    if n_once and once_inits.get("any", 0) > n_once:
+        out.append(("C05", "%d Once initialisers ran for %d Once objects" % (once_inits["any"], n_once), None))
+    return out
+
+
 # ---------------- C04 / C18: abstract objects judged on the completion order of operations ----------------
 def oracle_objects(evs, term, case, findings=None):
     """Replays the logged results of operations, in the order they completed, on plain abstract objects.
@@ -156,28 +365,28 @@ def oracle_objects(evs, term, case, findings=None):
         elif o[0] == "s":
             n, f = o[1:].split(":")
             st[i] = {"avail": int(n), "closed": False, "fair": f == "f"}
-    # which op of which body produced each O event: walk the bodies in program order per task
-    body_of = {0: 0}
-    pc = {0: 0}
+    attr, stacks = attribute(evs, case, want_stacks=True)
     bodies = case["bodies"]
-    panicked = False
-    for e in evs:
+
+    def pending_op(h, i):
+        # the operation task h is executing at event i: the op of its next attributed event, else its final frame's op
+        for j in range(i + 1, len(evs)):
+            if evs[j].kind == "O" and evs[j].task == h and attr[j] is not None:
+                return attr[j]
+        fr = stacks.get(h, [[0, 0]])[-1]
+        ops_ = bodies[fr[0]] if fr[0] < len(bodies) else []
+        return ops_[fr[1]] if fr[1] < len(ops_) else None
+
+    for idx, e in enumerate(evs):
         if e.kind != "O":
             continue
         t = e.task
-        if t not in body_of:
-            continue
-        ops = bodies[body_of[t]] if body_of[t] < len(bodies) else []
-        if e.tag == 9:
-            pc[t] = len(ops) + 1
-            continue
+        op = attr[idx]
         if e.tag == 17:
             o = e.vals[0]
             if st[o]["holder"] != t:
                 out.append(("C04", "guard of m%d dropped by task %d which does not hold it" % (o, t), None))
             st[o]["holder"] = None
-            if pc[t] < len(ops) and ops[pc[t]].startswith("ul"):
-                pc[t] += 1
             continue
         if e.tag == 20:
             w, o = e.vals
@@ -190,18 +399,19 @@ def oracle_objects(evs, term, case, findings=None):
                 s_["readers"].remove(t)
             else:
                 out.append(("C04", "read guard of w%d dropped by task %d which does not hold it" % (o, t), None))
-            if pc[t] < len(ops) and ops[pc[t]].startswith("ru"):
-                pc[t] += 1
             continue
-        if pc[t] >= len(ops):
+        if op is None:
             continue
-        op = ops[pc[t]]
-        pc[t] += 1
-        if e.tag == 1:
-            child = e.vals[0]
-            body_of[child] = int(op[2:])
-            pc[child] = 0
-        elif e.tag == 7:
+        if e.tag == 21:
+            # Condvar::wait returned: the mutex is held again by the waiter
+            m_ = int(op.split(".")[1])
+            if st[m_]["holder"] not in (None, t):
+                po = pending_op(st[m_]["holder"], idx)
+                if not (po and po.startswith("cw") and int(po.split(".")[1]) == m_):
+                    out.append(("C04", "Condvar::wait returned to task %d with mutex m%d while task %s holds it" % (t, m_, st[m_]["holder"]), None))
+            st[m_]["holder"] = t
+            continue
+        if e.tag == 7:
             a = int(op[1:].split(".")[0])
             parts = op.split(".")
             k = parts[1]
@@ -247,7 +457,10 @@ def oracle_objects(evs, term, case, findings=None):
                     out.append(("C04", "try_lock on m%d reported WouldBlock although no task holds it" % o, None))
             else:
                 if s["holder"] is not None:
-                    out.append(("C04", "task %d obtained mutex m%d while task %s holds it" % (t, o, s["holder"]), None))
+                    po = pending_op(s["holder"], idx)
+                    # a holder inside Condvar::wait has released the mutex for the duration of the wait
+                    if not (po and po.startswith("cw") and int(po.split(".")[1]) == o):
+                        out.append(("C04", "task %d obtained mutex m%d while task %s holds it" % (t, o, s["holder"]), None))
                 s["holder"] = t
                 if (res == 1) != s["poisoned"]:
                     out.append(("C04", "mutex m%d poisoned flag reported %s, expected %s" % (o, res == 1, s["poisoned"]), None))
@@ -306,16 +519,18 @@ def oracle_objects(evs, term, case, findings=None):
                     out.append(("C18", "is_closed() of s%d is %s, expected %s" % (o, e.vals[1], s["closed"]), None))
     # ---- C03 at the abstract level: a reported deadlock must be a deadlock of the abstract objects ----
     if term.startswith("deadlock:"):
-        ntasks = 1 + sum(1 for e in evs if e.kind == "O" and e.tag == 1)
+        ntasks = 1 + sum(1 for e in evs if e.kind == "O" and e.tag in (1, 31))
         ended = set(e.task for e in evs if e.kind == "O" and e.tag == 9)
         pend_sem = {}
+        reported = set(int(x) for x in term[10:-1].split(",") if x)
         for t in range(ntasks):
-            if t in ended or t not in body_of:
+            if t in ended or t not in stacks or t not in reported:
                 continue
-            ops = bodies[body_of[t]] if body_of[t] < len(bodies) else []
-            if pc.get(t, 0) >= len(ops):
+            frame = stacks[t][-1]
+            ops = bodies[frame[0]] if frame[0] < len(bodies) else []
+            if frame[1] >= len(ops):
                 continue
-            op = ops[pc[t]]
+            op = ops[frame[1]]
             why = None
             if op.startswith("lk"):
                 o = int(op[2:])
